@@ -146,6 +146,12 @@ pub fn gen(tier: &str, rng: &mut Rng, emit: &mut dyn FnMut(String)) {
         emit(format!("alloc {} {}", hex(s.as_bytes()), hex(qs[i % 4].as_bytes())));
         i += 1;
     });
+    // texts beyond the small scope: as raw text, and as a valid pointer with a token-prefix partner
+    for (i, s) in boundary_texts(tier).into_iter().enumerate() {
+        emit(format!("alloc {} {}", hex(s.as_bytes()), hex(qs[i % 4].as_bytes())));
+        let e = rfc_escape(&s);
+        emit(format!("alloc {} {}", hex(format!("/{e}/k/{e}").as_bytes()), hex(format!("/{e}").as_bytes())));
+    }
     // multi-KiB pointers with thousands of tokens
     let n = if tier == "thorough" { 2_000 } else { 150 };
     for i in 0..n {
